@@ -3,4 +3,433 @@ import PjVerif.Spec.GraphEff
 import PjVerif.Lemmas.GraphTasks
 namespace Pj
 
+/-- the same proposition as `G.Same` of Props/C16.lean (which is stated there) -/
+def SameG (a b : G) : Prop :=
+  a.n = b.n ∧ ∀ u, a.tid u = b.tid u ∧ a.parent u = b.parent u ∧ a.children u = b.children u ∧
+    a.preds u = b.preds u ∧ a.succs u = b.succs u ∧ a.owner u = b.owner u
+
+theorem SameG.refl (a : G) : SameG a a := ⟨rfl, fun _ => ⟨rfl, rfl, rfl, rfl, rfl, rfl⟩⟩
+theorem SameG.of_eq {a b : G} (h : a = b) : SameG a b := h ▸ SameG.refl a
+theorem SameG.eq {a b : G} (h : SameG a b) : a = b := by
+  obtain ⟨n, tid, parent, children, preds, succs, owner⟩ := a
+  obtain ⟨n', tid', parent', children', preds', succs', owner'⟩ := b
+  obtain ⟨h1, h2⟩ := h
+  simp only at h1 h2
+  have e1 : tid = tid' := funext fun u => (h2 u).1
+  have e2 : parent = parent' := funext fun u => (h2 u).2.1
+  have e3 : children = children' := funext fun u => (h2 u).2.2.1
+  have e4 : preds = preds' := funext fun u => (h2 u).2.2.2.1
+  have e5 : succs = succs' := funext fun u => (h2 u).2.2.2.2.1
+  have e6 : owner = owner' := funext fun u => (h2 u).2.2.2.2.2
+  subst h1 e1 e2 e3 e4 e5 e6
+  rfl
+
+theorem mutPreds_eq_eff (s : G) (t : Uid) (l : List Uid) : mutPreds s t l = effSetPreds s t l := by
+  apply SameG.eq
+  refine ⟨rfl, fun u => ⟨rfl, rfl, rfl, rfl, ?_, rfl⟩⟩
+  simp only [mutPreds, effSetPreds, Bool.and_eq_true]
+
+theorem mutSuccs_eq_eff (s : G) (t : Uid) (l : List Uid) : mutSuccs s t l = effSetSuccs s t l := by
+  apply SameG.eq
+  refine ⟨rfl, fun u => ⟨rfl, rfl, rfl, ?_, rfl, rfl⟩⟩
+  simp only [mutSuccs, effSetSuccs, Bool.and_eq_true]
+
+theorem setPreds_ok_eq (s s' : G) (t : Uid) (l : List Uid) (h : setPreds s t l = (s', none)) :
+    s' = effSetPreds s t l := by
+  unfold setPreds at h
+  split at h
+  · cases h
+  · injection h with h1 _
+    rw [← h1, mutPreds_eq_eff]
+
+theorem setSuccs_ok_eq (s s' : G) (t : Uid) (l : List Uid) (h : setSuccs s t l = (s', none)) :
+    s' = effSetSuccs s t l := by
+  unfold setSuccs at h
+  split at h
+  · cases h
+  · injection h with h1 _
+    rw [← h1, mutSuccs_eq_eff]
+
+theorem frame_links (s s' : G) (t : Uid) (l : List Uid) (u : Uid)
+    (h : setPreds s t l = (s', none)) (hu : u ≠ t) (hl : u ∉ l) (ho : u ∉ s.preds t) :
+    s'.preds u = s.preds u ∧ s'.succs u = s.succs u ∧ s'.parent u = s.parent u ∧ s'.children u = s.children u ∧
+    s'.owner u = s.owner u := by
+  rw [setPreds_ok_eq s s' t l h]
+  refine ⟨?_, ?_, rfl, rfl, rfl⟩
+  · show (if u = t then l else s.preds u) = _
+    rw [if_neg hu]
+  · have h1 : (s.preds t).contains u = false := by simpa using ho
+    have h2 : l.contains u = false := by simpa using hl
+    simp only [effSetPreds, h1, h2]
+    simp
+
+/-! ### move -/
+
+theorem chMove_cases2 (s : G) (h : Uid) (ts : List Uid) (b a : Option Uid) :
+    chMove s h ts b a = (s, some .runtime) ∨ chMove s h ts b a = (effMove s h ts b a, none) := by
+  unfold chMove
+  dsimp only
+  repeat' split
+  all_goals first | exact Or.inl rfl | exact Or.inr rfl
+
+theorem chMove_ok_eq (s s' : G) (h : Uid) (ts : List Uid) (b a : Option Uid)
+    (hs : chMove s h ts b a = (s', none)) : s' = effMove s h ts b a := by
+  rcases chMove_cases2 s h ts b a with e | e
+  · rw [e] at hs; cases hs
+  · rw [e] at hs; injection hs with h1 _; exact h1.symm
+
+/-! ### sort -/
+
+def leOf (key : Uid → Int) (rev : Bool) : Uid → Uid → Bool :=
+  if rev then (fun a b => decide (key b ≤ key a)) else (fun a b => decide (key a ≤ key b))
+
+theorem sortBy_eq (key : Uid → Int) (rev : Bool) (l : List Uid) : sortBy key rev l = l.mergeSort (leOf key rev) := by
+  unfold sortBy leOf; cases rev <;> rfl
+
+theorem leOf_trans (key : Uid → Int) (rev : Bool) (a b c : Uid) :
+    leOf key rev a b = true → leOf key rev b c = true → leOf key rev a c = true := by
+  unfold leOf; cases rev <;> simp <;> omega
+
+theorem leOf_total (key : Uid → Int) (rev : Bool) (a b : Uid) : (leOf key rev a b || leOf key rev b a) = true := by
+  unfold leOf; cases rev <;> simp <;> omega
+
+theorem leOf_of_eq (key : Uid → Int) (rev : Bool) (a b : Uid) (h : key a = key b) : leOf key rev a b = true := by
+  unfold leOf; cases rev <;> simp <;> omega
+
+theorem pairwise_adjacent {R : Uid → Uid → Prop} : ∀ (l : List Uid), l.Pairwise R →
+    ∀ p ∈ l.zip (l.drop 1), R p.1 p.2 := by
+  intro l
+  induction l with
+  | nil => intro _ p hp; simp at hp
+  | cons x xs ih =>
+    intro hpw p hp
+    cases xs with
+    | nil => simp at hp
+    | cons y ys =>
+      simp only [List.drop_succ_cons, List.drop_zero, List.zip_cons_cons, List.mem_cons] at hp
+      rcases hp with rfl | hp
+      · exact (List.pairwise_cons.mp hpw).1 y List.mem_cons_self
+      · exact ih (List.pairwise_cons.mp hpw).2 p (by simpa using hp)
+
+/-- first-occurrence order is not affected by filtering with a predicate that both elements satisfy -/
+theorem idxOf_lt_filter (p : Uid → Bool) (a b : Uid) (hab : a ≠ b) (ha : p a = true) (hb : p b = true) :
+    ∀ l : List Uid, (l.idxOf a < l.idxOf b ↔ (l.filter p).idxOf a < (l.filter p).idxOf b) := by
+  intro l
+  induction l with
+  | nil => simp
+  | cons x xs ih =>
+    by_cases hxa : x = a
+    · subst hxa
+      have : ¬ (x == b) = true := by simpa using hab
+      simp [ha, List.idxOf_cons, this]
+    · by_cases hxb : x = b
+      · subst hxb
+        simp [hb, List.idxOf_cons]
+      · have h1 : ¬ (x == a) = true := by simpa using hxa
+        have h2 : ¬ (x == b) = true := by simpa using hxb
+        by_cases hpx : p x = true
+        · simp [hpx, List.idxOf_cons, h1, h2, ih]
+        · simp [hpx, List.idxOf_cons, h1, h2, ih]
+
+theorem mergeSort_filter_key (key : Uid → Int) (rev : Bool) (k : Int) (l : List Uid) :
+    (l.mergeSort (leOf key rev)).filter (fun x => key x == k) = l.filter (fun x => key x == k) := by
+  have hsub : (l.filter (fun x => key x == k)).Sublist (l.mergeSort (leOf key rev)) := by
+    refine List.sublist_mergeSort (leOf_trans key rev) (leOf_total key rev) ?_ List.filter_sublist
+    refine List.Pairwise.imp_of_mem ?_ (List.pairwise_of_forall (R := fun _ _ => True) (fun _ _ => trivial))
+    intro a b ha hb _
+    have ha' := (List.mem_filter.mp ha).2
+    have hb' := (List.mem_filter.mp hb).2
+    simp only [beq_iff_eq] at ha' hb'
+    exact leOf_of_eq key rev a b (ha'.trans hb'.symm)
+  have h2 := hsub.filter (fun x => key x == k)
+  rw [List.filter_filter] at h2
+  simp only [Bool.and_self] at h2
+  have hlen : (l.filter (fun x => key x == k)).length = ((l.mergeSort (leOf key rev)).filter (fun x => key x == k)).length :=
+    ((List.mergeSort_perm l (leOf key rev)).filter _).length_eq.symm
+  exact (h2.eq_of_length hlen).symm
+
+theorem sortBy_sorted (key : Uid → Int) (rev : Bool) (l : List Uid) :
+    sortedByB key rev l (sortBy key rev l) = true := by
+  rw [sortBy_eq]
+  have hperm := List.mergeSort_perm l (leOf key rev)
+  unfold sortedByB
+  simp only [Bool.and_eq_true, List.all_eq_true, beq_iff_eq, List.contains_iff_mem]
+  refine ⟨⟨⟨⟨?_, ?_⟩, ?_⟩, ?_⟩, ?_⟩
+  · intro x _; exact (hperm.count_eq x).symm
+  · intro x hx; exact hperm.mem_iff.mp hx
+  · exact hperm.length_eq.symm
+  · intro p hp
+    have := pairwise_adjacent _ (List.pairwise_mergeSort (leOf_trans key rev) (leOf_total key rev) l) p hp
+    unfold leOf at this
+    cases rev <;> simpa using this
+  · intro a _ b _
+    by_cases hc : key a = key b ∧ a ≠ b
+    · have hf := mergeSort_filter_key key rev (key a) l
+      have e1 := idxOf_lt_filter (fun x => key x == key a) a b hc.2 (by simp) (by simp [hc.1]) l
+      have e2 := idxOf_lt_filter (fun x => key x == key a) a b hc.2 (by simp) (by simp [hc.1]) (l.mergeSort (leOf key rev))
+      rw [hf] at e2
+      simp only [Bool.or_eq_true, Bool.not_eq_true', beq_iff_eq, decide_eq_decide]
+      right
+      exact e2.trans e1.symm
+    · simp only [Bool.or_eq_true, Bool.not_eq_true']
+      left
+      simp only [Bool.and_eq_false_iff, beq_eq_false_iff_ne, ne_eq, bne_eq_false_iff_eq]
+      by_cases h1 : key a = key b
+      · right; exact Classical.not_not.mp (fun h2 => hc ⟨h1, h2⟩)
+      · left; exact h1
+
+/-! ### one move -/
+
+theorem drop_idxOf (x : Uid) : ∀ (l : List Uid), x ∈ l → l.drop (l.idxOf x) = x :: l.drop (l.idxOf x + 1) := by
+  intro l
+  induction l with
+  | nil => intro h; cases h
+  | cons y ys ih =>
+    intro h
+    by_cases hy : y = x
+    · subst hy; simp
+    · have h1 : ¬ (y == x) = true := by simpa using hy
+      have hx : x ∈ ys := by
+        rcases List.mem_cons.mp h with e | e
+        · exact absurd e.symm hy
+        · exact e
+      simp only [List.idxOf_cons, h1, cond_false, List.drop_succ_cons]
+      exact ih hx
+
+theorem take_idxOf_succ (x : Uid) : ∀ (l : List Uid), x ∈ l → l.take (l.idxOf x + 1) = l.take (l.idxOf x) ++ [x] := by
+  intro l
+  induction l with
+  | nil => intro h; cases h
+  | cons y ys ih =>
+    intro h
+    by_cases hy : y = x
+    · subst hy; simp
+    · have h1 : ¬ (y == x) = true := by simpa using hy
+      have hx : x ∈ ys := by
+        rcases List.mem_cons.mp h with e | e
+        · exact absurd e.symm hy
+        · exact e
+      simp only [List.idxOf_cons, h1, cond_false, List.take_succ_cons, List.cons_append]
+      rw [ih hx]
+
+theorem erase_insertAt (l1 : List Uid) (t : Uid) (i : Nat) (ht : t ∉ l1) :
+    (l1.take i ++ [t] ++ l1.drop i).erase t = l1 := by
+  have h1 : t ∉ l1.take i := fun h => ht (List.mem_of_mem_take h)
+  rw [List.append_assoc, List.erase_append_right _ h1]
+  simp
+
+theorem moveOne_spec (l : List Uid) (t : Uid) (b a : Option Uid) (hn : l.Nodup) (_ht : t ∈ l)
+    (hb : ∀ x, b = some x → x ∈ l ∧ x ≠ t) (ha : ∀ x, a = some x → x ∈ l ∧ x ≠ t) (hab : b.isSome ≠ a.isSome) :
+    (moveOne l t b a).erase t = l.erase t ∧
+    (∀ x, b = some x → ∃ pre post, moveOne l t b a = pre ++ t :: x :: post) ∧
+    (∀ x, a = some x → ∃ pre post, moveOne l t b a = pre ++ x :: t :: post) := by
+  have htl : t ∉ l.erase t := fun h => (List.Nodup.mem_erase_iff hn).mp h |>.1 rfl
+  cases b with
+  | some x =>
+    cases a with
+    | some y => simp at hab
+    | none =>
+      obtain ⟨hx, hxt⟩ := hb x rfl
+      have hx1 : x ∈ l.erase t := (List.mem_erase_of_ne hxt).mpr hx
+      refine ⟨erase_insertAt _ t _ htl, ?_, ?_⟩
+      · intro x' hx'
+        cases hx'
+        refine ⟨(l.erase t).take ((l.erase t).idxOf x), (l.erase t).drop ((l.erase t).idxOf x + 1), ?_⟩
+        show (l.erase t).take _ ++ [t] ++ (l.erase t).drop _ = _
+        rw [drop_idxOf x _ hx1]; simp
+      · intro x' hx'; cases hx'
+  | none =>
+    cases a with
+    | none => simp at hab
+    | some x =>
+      obtain ⟨hx, hxt⟩ := ha x rfl
+      have hx1 : x ∈ l.erase t := (List.mem_erase_of_ne hxt).mpr hx
+      refine ⟨erase_insertAt _ t _ htl, ?_, ?_⟩
+      · intro x' hx'; cases hx'
+      · intro x' hx'
+        cases hx'
+        refine ⟨(l.erase t).take ((l.erase t).idxOf x), (l.erase t).drop ((l.erase t).idxOf x + 1), ?_⟩
+        show (l.erase t).take _ ++ [t] ++ (l.erase t).drop _ = _
+        rw [take_idxOf_succ x _ hx1]; simp
+
+theorem detachOld_children (s : G) (t : Uid) (hw : WF s) (q : Uid) :
+    (detachOld s t).children q = (s.children q).filter (fun c => c != t) := by
+  have hself : ∀ q, s.parent t ≠ some q → (s.children q).filter (fun c => c != t) = s.children q := by
+    intro q hq
+    apply List.filter_eq_self.mpr
+    intro a ha
+    have : a ≠ t := by
+      intro e; subst e
+      exact hq ((hw.listed a q).mpr ha)
+    simpa using this
+  unfold detachOld
+  split
+  · rename_i p hp
+    split
+    · by_cases hqp : q = p
+      · subst hqp
+        show upd _ _ _ _ = _
+        rw [upd_same]
+        exact (hw.once q).erase_eq_filter t
+      · show upd _ _ _ _ = _
+        rw [upd_other _ _ _ _ hqp]
+        refine (hself q ?_).symm
+        rw [hp]; intro e; exact hqp (Option.some.inj e).symm
+    · rename_i hc
+      exact absurd (List.contains_iff_mem.mpr ((hw.listed t p).mp hp)) hc
+  · rename_i hp
+    refine (hself q ?_).symm
+    rw [hp]; intro e; cases e
+
+/-- the exact effect of an accepted `t.parent = p` on a well-formed state -/
+theorem setParentSome_exact (s s' : G) (t p : Uid) (hw : WF s) (h : setParentSome s t p = (s', none)) :
+    ∃ sub, subtreeF s.children s.fuel t = some sub ∧
+      s'.n = s.n ∧ s'.tid = s.tid ∧ s'.preds = s.preds ∧ s'.succs = s.succs ∧
+      s'.parent = upd s.parent t (some p) ∧
+      (∀ q, s'.children q = if q = p then (s.children p).filter (fun c => c != t) ++ [t]
+                            else (s.children q).filter (fun c => c != t)) ∧
+      (∀ x, s'.owner x = match s.owner p with
+        | some w => if sub.contains x then some w else s.owner x
+        | none => s.owner x) := by
+  unfold setParentSome at h
+  split at h
+  · cases h
+  · rw [mutParentSome_eq] at h
+    split at h
+    · cases h
+    · rename_i sub hsub
+      injection h with h1 _
+      refine ⟨sub, hsub, ?_⟩
+      obtain ⟨d1, d2, d3, d4, d5⟩ := detachOld_fields s t
+      obtain ⟨o1, o2, o3, o4, o5⟩ := ownStep_fields (parStep (detachOld s t) t p) sub p
+      obtain ⟨a1, a2, a3, a4⟩ := appStep_fields (ownStep (parStep (detachOld s t) t p) sub p) t p
+      obtain ⟨a5, a6⟩ := appStep_owner_n (ownStep (parStep (detachOld s t) t p) sub p) t p
+      obtain ⟨p1, p2, p3, p4, p5⟩ := parStep_fields (detachOld s t) t p
+      subst h1
+      refine ⟨?_, ?_, ?_, ?_, ?_, ?_, ?_⟩
+      · rw [a6, ownStep_n]; exact detachOld_n' s t
+      · rw [a4, o5, p5, d4]
+      · rw [a2, o3, p3, d2]
+      · rw [a3, o4, p4, d3]
+      · rw [a1, o1, p1, d1]
+      · intro q
+        have hc3 : (ownStep (parStep (detachOld s t) t p) sub p).children = (detachOld s t).children := by
+          rw [o2, p2]
+        have hnot : ¬ ((ownStep (parStep (detachOld s t) t p) sub p).children p).contains t = true := by
+          rw [hc3, detachOld_children s t hw p]
+          simp
+        unfold appStep
+        rw [if_neg hnot]
+        show upd _ p _ q = _
+        by_cases hqp : q = p
+        · subst hqp
+          rw [upd_same, if_pos rfl, hc3, detachOld_children s t hw q]
+        · rw [upd_other _ _ _ _ hqp, if_neg hqp, hc3, detachOld_children s t hw q]
+      · intro x
+        rw [a5, ownStep_owner]
+        show (match (detachOld s t).owner p with
+          | none => (detachOld s t).owner x
+          | some w => if sub.contains x then some w else (detachOld s t).owner x) = _
+        rw [d5]
+        cases s.owner p <;> rfl
+
+theorem below_single (s : G) (t : Uid) (sub : List Uid) (h : subtreeF s.children s.fuel t = some sub) :
+    below s [t] = sub := by
+  simp [below, h]
+
+theorem setParentSome_ok_eq (s s' : G) (t p : Uid) (hw : WF s) (h : setParentSome s t p = (s', none)) :
+    s' = effSetParentSome s t p := by
+  obtain ⟨sub, hsub, h1, h2, h3, h4, h5, h6, h7⟩ := setParentSome_exact s s' t p hw h
+  apply SameG.eq
+  refine ⟨h1, fun u => ⟨by rw [h2]; rfl, by rw [h5]; rfl, ?_, by rw [h3]; rfl, by rw [h4]; rfl, ?_⟩⟩
+  · rw [h6]; rfl
+  · rw [h7]
+    show _ = match s.owner p with
+      | some w => if (below s [t]).contains u then some w else s.owner u
+      | none => s.owner u
+    rw [below_single s t sub hsub]
+    cases s.owner p <;> rfl
+
+theorem setParentNone_ok_eq (s s' : G) (t : Uid) (hw : WF s) (h : setParentNone s t = (s', none)) :
+    s' = effSetParentNone s t := by
+  unfold setParentNone at h
+  unfold effSetParentNone
+  split at h
+  · rename_i w hw'
+    simp only [hw']
+    exact setParentSome_ok_eq s s' t w hw h
+  · rename_i hw'
+    simp only [hw']
+    injection h with h1 _
+    subst h1
+    obtain ⟨d1, d2, d3, d4, d5⟩ := detachOld_fields s t
+    apply SameG.eq
+    refine ⟨detachOld_n' s t, fun u => ⟨by show (detachOld s t).tid u = _; rw [d4], ?_, ?_, 
+      by show (detachOld s t).preds u = _; rw [d2], by show (detachOld s t).succs u = _; rw [d3],
+      by show (detachOld s t).owner u = _; rw [d5]⟩⟩
+    · show upd (detachOld s t).parent t none u = _
+      rw [d1]; rfl
+    · show (detachOld s t).children u = _
+      rw [detachOld_children s t hw u]
+
+theorem setParent_ok_eq (s s' e : G) (t : Uid) (p : Option Uid) (hw : WF s)
+    (he : effOf s (.setParent t p) = some e) (h : setParent s t p = (s', none)) : s' = e := by
+  cases p with
+  | some p =>
+    simp only [effOf, Option.some.injEq] at he
+    rw [← he]; exact setParentSome_ok_eq s s' t p hw h
+  | none =>
+    simp only [effOf, Option.some.injEq] at he
+    rw [← he]; exact setParentNone_ok_eq s s' t hw h
+
+/-! ### reorder -/
+
+theorem reorderLoop_closed (s : G) (l : List Uid) (hn : l.Nodup) :
+    ∀ (ids : List Int) (new rest r : List Uid), reorderLoop s l ids new rest = .ok r →
+      rest = l.filter (fun t => !new.contains t) → (∀ x ∈ new, x ∈ l) →
+      r = (new ++ ids.filterMap (fun i => l.find? (fun t => s.tid t == i))) ++
+          l.filter (fun t => !(new ++ ids.filterMap (fun i => l.find? (fun t => s.tid t == i))).contains t) := by
+  intro ids
+  induction ids with
+  | nil =>
+    intro new rest r h hrest _
+    simp only [reorderLoop, pure, Except.pure, Except.ok.injEq] at h
+    simp [← h, hrest]
+  | cons i ids ih =>
+    intro new rest r h hrest hnew
+    rw [reorderLoop] at h
+    split at h
+    · cases h
+    · rename_i ch hch
+      split at h
+      · rename_i hc
+        have hcl : ch ∈ l := List.mem_of_find?_eq_some hch
+        have := ih (new ++ [ch]) (rest.erase ch) r h ?_ ?_
+        · rw [this]
+          simp [hch]
+        · rw [hrest, List.Nodup.erase_eq_filter (hn.filter _), List.filter_filter]
+          apply List.filter_congr
+          intro x _
+          by_cases hx : x = ch <;> simp [hx]
+        · intro x hx
+          rcases List.mem_append.mp hx with hx | hx
+          · exact hnew x hx
+          · rw [List.mem_singleton.mp hx]; exact hcl
+      · cases h
+
+theorem chReorder_ok_eq (s s' : G) (h : Uid) (ids : List Int) (hw : WF s)
+    (hs : chReorder s h ids = (s', none)) : s' = effReorder s h ids := by
+  unfold chReorder at hs
+  split at hs
+  · cases hs
+  · rename_i r hr
+    injection hs with h1 _
+    have := reorderLoop_closed s (s.children h) (hw.once h) ids [] (s.children h) r hr (List.filter_eq_self.mpr (by simp)).symm (by simp)
+    subst h1
+    apply SameG.eq
+    refine ⟨rfl, fun u => ⟨rfl, rfl, ?_, rfl, rfl, rfl⟩⟩
+    show upd s.children h r u = if u = h then _ else s.children u
+    rw [this]
+    simp [upd]
+
 end Pj
